@@ -9,7 +9,7 @@ from .core import Result, quiet, digest_of
 from .oracle import diff, fingerprint, outcome
 from .simcfg import gen_sim_cfg, simpler_sim_cfgs
 from .simpool import Sim, Installed, SimDeadlock
-from .workload import gen_band, gen_signal_spec, build_signal, gen_cf_kwargs, \
+from .workload import thorough, gen_band, gen_signal_spec, build_signal, gen_cf_kwargs, \
     gen_thresholds, gen_burst_kwargs, gen_find_extrema_kwargs
 
 ID = 'C12'
@@ -46,6 +46,9 @@ def gen_plan(wl, fr, idx):
         n0, n1 = wl.choice([(1, 2), (2, 1), (1, 3), (3, 1), (2, 3), (3, 2), (1, 2), (2, 3), (3, 2)])
     else:
         n0 = n1 = wl.choice((1, 2, 2, 3))
+    r4 = wl.random()
+    if r4 < (0.35 if thorough() else 0.12):      # four slices along one dimension
+        n0, n1 = wl.choice([(4, 1), (1, 4), (4, 2), (2, 4), (4, 3), (3, 4)] + ([(4, 4), (5, 2), (2, 5)] if thorough() else []))
     sigs = [[gen_signal_spec(wl, band, i * n1 + j) for j in range(n1)] for i in range(n0)]
     plan = {'band': band, 'shape': [n0, n1], 'sigs': sigs}
     plan['axis'] = wl.choice((0, 1, '01', '01'))
@@ -58,11 +61,18 @@ def gen_plan(wl, fr, idx):
             plan['options'] = None
         elif r < 0.45:
             plan['options'] = {'shared': gen_cf_kwargs(wl)}
-        elif plan['axis'] == '01':
-            plan['options'] = {'list2': [[gen_cf_kwargs(wl) for _ in range(n1)] for _ in range(n0)]}
         else:
-            n = n0 if plan['axis'] == 0 else n1
-            plan['options'] = {'list1': [gen_cf_kwargs(wl) for _ in range(n)]}
+            # all-different option sets, or a small palette with repeats (e.g. [A, B, B, A])
+            palette = None if wl.random() < 0.55 else [gen_cf_kwargs(wl) for _ in range(wl.choice((2, 2, 3)))]
+
+            def one():
+                return gen_cf_kwargs(wl) if palette is None else copy.deepcopy(wl.choice(palette))
+            if plan['axis'] == '01':
+                plan['options'] = {'list2': [[one() for _ in range(n1)] for _ in range(n0)]}
+            else:
+                n = n0 if plan['axis'] == 0 else n1
+                plan['options'] = {'list1': [one() for _ in range(n)]}
+            plan['alias_equal'] = palette is not None and wl.random() < 0.5
         plan['return_samples'] = wl.random() < 0.6
     else:
         method = wl.choice(('cycles', 'cycles', 'amp'))
@@ -71,6 +81,8 @@ def gen_plan(wl, fr, idx):
                         'burst_kwargs': gen_burst_kwargs(wl, method), 'thresholds': th,
                         'find_extrema_kwargs': gen_find_extrema_kwargs(wl),
                         'return_samples': wl.random() < 0.6}
+        plan['prefit'] = wl.random() < 0.4
+        plan['prefit_axis'] = wl.choice((0, 1, '01'))
     ntasks = n0 * n1 if plan['axis'] == '01' else (n0 if plan['axis'] == 0 else n1)
     plan['n_jobs'] = wl.choice(sorted({1, 2, 3, ntasks, ntasks + 1}) + [-1])
     plan['progress'] = wl.choice((None, None, 'tqdm'))
@@ -106,9 +118,19 @@ def live_options(plan):
         return None
     if 'shared' in opt:
         return ref.live(opt['shared'])
+    seen = []
+
+    def mk(o):
+        if plan.get('alias_equal'):          # equal option sets are one and the same dict object
+            for spec, obj in seen:
+                if spec == o:
+                    return obj
+        obj = ref.live(o)
+        seen.append((o, obj))
+        return obj
     if 'list1' in opt:
-        return [ref.live(o) for o in opt['list1']]
-    return [[ref.live(o) for o in row] for row in opt['list2']]
+        return [mk(o) for o in opt['list1']]
+    return [[mk(o) for o in row] for row in opt['list2']]
 
 
 def ref_slice(sl, fs, f_range, settings, rs):
@@ -178,6 +200,10 @@ def execute(plan, tape):
                                       burst_kwargs=c['burst_kwargs'], thresholds=c['thresholds'],
                                       find_extrema_kwargs=c['find_extrema_kwargs'],
                                       return_samples=c['return_samples'])
+                    if plan.get('prefit'):
+                        # the object was used before: an earlier fit on other data of the same shape
+                        bg.fit(-sigs[::-1, ::-1] * 0.5, fs, f_range, axis=plan['prefit_axis'] if plan['prefit_axis'] != '01' else (0, 1),
+                               n_jobs=1, progress=None)
                     bg.fit(sigs, fs, f_range, axis=axis, n_jobs=plan['n_jobs'], progress=plan['progress'])
                     out = bg.df_features
             except SimDeadlock as e:
@@ -218,6 +244,10 @@ def execute(plan, tape):
         res.stats['probe.nested_2d_pool_path'] += 1
     if plan['entry'] == 'object':
         res.stats['probe.object_entry'] += 1
+    if plan.get('prefit'):
+        res.stats['probe.object_refit'] += 1
+    if plan.get('alias_equal'):
+        res.stats['probe.option_list_with_aliased_dicts'] += 1
     if plan['sim']['faults'].get('oversubscribe'):
         res.stats['fault.oversubscribe'] += 1
     res.stats['mode.' + sim.mode] += 1
@@ -373,7 +403,7 @@ def shrink(plan):
                 del p['options']['shared'][k]
                 yield p
     for key, val in (('n_jobs', 1), ('n_jobs', 2), ('progress', None), ('tqdm', 'absent'),
-                     ('return_samples', True)):
+                     ('return_samples', True), ('prefit', False), ('alias_equal', False)):
         if key in plan and plan[key] != val:
             p = copy.deepcopy(plan)
             p[key] = val
